@@ -95,6 +95,37 @@ CHECKS.update({
         technique="Lean 4 proof (footprint/frame lemmas, induction over histories x oracle) + exhaustive fault-point correspondence"),
 })
 
+CHECKS.update({
+    "C03": dict(category="proof",
+        text="Lean 4 proofs over a transcription of stop.c and of the limit plumbing of optimize.c: nlopt_stop_evals fires exactly from the maxeval-th counted evaluation on (iff, monotone in the count), nlopt_stop_time is monotone in the clock under a monotone subtraction, maxeval <= 0 / maxtime <= 0 mean no limit, MAXEVAL/MAXTIME are sound (reported only when the budget is used up), the override rule of nlopt_optimize_limited is the minimum of the two budgets when both are positive (incl. the zero-budget-means-unlimited hazard, stated), and nlopt_get_numevals is the algorithm's counter for every algorithm machine. Tie: the stop predicates are evaluated by model and library on the same inputs (S-stop stream, virtual clock through the hook), every recorded run is replayed through the wrapper model. Monitor with calibrated per-family overshoot bounds: for every algorithm and nesting the number of objective evaluations after the limit, the reported code (MAXEVAL/MAXTIME only when the budget is used up), numevals = counted evaluations, and termination under a watchdog, incl. NaN/Inf objective values.",
+        design="3/C03", note=TB + "The position of the limit tests inside each numeric core is monitored (bounded overshoot per family), not proved. Known findings: NEWUOA / NEWUOA_BOUND (and the algorithms that nest them) do not terminate after an Inf/NaN objective value; AGS with constraints counts trials; StoGO does not terminate for boxes far from the origin. Fixed by commits: CRS limits, AUGLAG sub-budget, AGS crash.",
+        technique="Lean 4 proof (stop predicates, budget arithmetic) + stop-stream correspondence + overshoot monitor"),
+    "C04": dict(category="proof",
+        text="Lean 4 proofs over the wrapper model for an ARBITRARY algorithm machine: the stop request raised in a callback is visible to the algorithm in the very next answer (stop_request_forwarded), no layer swallows it, every wrapper passes the algorithm's FORCED_STOP code and x through unchanged, the flag value set by nlopt_set_force_stop is stored verbatim and cleared at the start of the next run. Tie: runs with a stop raised at callback k are replayed through the model. Monitor: for every algorithm and k, FORCED_STOP is returned, at most a family-specific number of further callbacks occurs, the next run on the same object starts clean.",
+        design="3/C04", note=TB + "Where each core tests the flag is monitored, not proved. Known finding: a problem without free variables makes its single evaluation and returns SUCCESS without testing the flag. Fixed by commits: CRS initial population, Luksan, NEWUOA, AGS, StoGO.",
+        technique="Lean 4 proof (flag propagation through arbitrary algorithm machines) + replay correspondence + per-k monitor"),
+    "C06": dict(category="proof",
+        text="Lean 4 proofs over a model of the SLSQP incumbent rule (the only NLopt-authored feasible-incumbent bookkeeping): with tolerances separating feasible from infeasible points the reported point is the best feasible evaluation (slsqp_best_feasible_partial); the full-strength statement is refuted by a concrete witness in the model (slsqp_best_feasible_full_false: an infeasible-within-tolerance incumbent can shadow a feasible one) and is kept visible. For the other constraint-capable algorithms (COBYLA, MMA, CCSAQ, ISRES, AUGLAG, ORIG_DIRECT, AGS) the monitor compares the result with the best feasible entry of the recorded trace (tolerances as documented); the wrapper replay shows no layer changes the result.",
+        design="3/C06", note=TB + "Incumbent rules of COBYLA/MMA/ISRES/AUGLAG/DIRECT/AGS cores are monitor-only. Equality-constrained ISRES is excluded from the best-feasible monitor (penalty ranking by design).",
+        technique="Lean 4 proof (incumbent fold, witness for the refuted full statement) + best-feasible monitor + replay correspondence"),
+    "C09": dict(category="proof",
+        text="Lean 4 proofs over the wrapper model: every ill-posed call (NULL handle, missing objective, NULL x / opt_f, lb > ub, x0 outside the box or off a fixed coordinate, unsupported constraints, missing subsidiary optimizer, population / dimension restrictions) returns its documented negative code before any callback, with x, opt_f and the object untouched (rejected_*, ill_posed_rejected, null_handle_rejected); the accepted/rejected decision is a total function of the settings. Tie: every malformed spec is run on the library and through the model (code, no callbacks, getters before = after). Monitor: malformed stream of the generator covering each rejection branch.",
+        design="3/C09", note=TB + "Rejections raised inside numeric cores after the first callback (e.g. BOBYQA step scaling) are monitored only. Fixed by commits: NULL handle crash, fixed-coordinate x0.",
+        technique="Lean 4 proof (decision logic stated outright) + malformed-input correspondence"),
+    "C10": dict(category="other",
+        text="PARTIAL. Proved in Lean 4 for every n, m, population: the work-space partitions of MMA, CCSA, ISRES, Subplex, AUGLAG and PRAXIS fit their allocation (58 theorems regenerated on every run from the malloc size expression and the pointer chain in the C source; the required length of each segment is the hand-written spec), plus row/point index arithmetic of the population methods. NOT proved (no Lean model can carry it): memory safety of the f2c / C++ cores, leaks, undefined arithmetic. These are explored: every run executes all 43 algorithms x n in 1..12 x population / vector storage from 1 x constraints x subsidiary optimizers x NaN/Inf/huge injections under AddressSanitizer + UBSan with a leak check per run; any report, crash or undocumented code is a violation.",
+        design="3/C10", note=TB + "Sanitizer runs are sampling, not proof. Fixed by commits: AGS evolvent index, BOBYQA overrun, ORIG_DIRECT unset index.",
+        technique="Lean 4 proof of generated work-space arithmetic (translator from malloc/partition source text) + sanitizer exploration (not a proof)"),
+    "C16": dict(category="other",
+        text="PARTIAL. Proved in Lean 4: for EVERY interleaving, a thread whose steps touch only its own component ends in the state of its solo run (interleaving_noninterference, schedules_agree). The footprint premise is regenerated from the fresh build on every run: the table of writable non-thread-local symbols of libnlopt.a contains only allow-listed ones (no_hidden_state), no source line outside definitions and the documented legacy setters assigns one of them (allowed_globals_never_written), the generator and clock are thread-local. NOT provable in a Lean model: data races and the C memory model. Explored: the same jobs (own object, own srand) on 1 and on K threads must give bitwise equal traces and results; the K-thread run is repeated under ThreadSanitizer, every report is a violation.",
+        design="3/C16", note=TB + "Premises: callbacks touch only their own data; each thread seeds its own generator. Fixed by commits: mma_verbose/ccsa_verbose and StoGO's FC/GC/StartTime/MacEpsilon were process-wide and written by every run.",
+        technique="Lean 4 proof (schedule-level non-interference) + generated symbol-table footprint (decide) + threaded differential runs and ThreadSanitizer (not a proof)"),
+    "C17": dict(category="proof",
+        text="Lean 4 proofs over a model of deprecated.c as a fold of object-API transitions: the object handed to nlopt_optimize by nlopt_minimize_econstrained is exactly the result of the documented setter sequence (constraint i with data base + i*stride, inequality tolerance 0, equality tolerance htol_abs, NULL xtol_abs = no call, global defaults only where the object has no explicit setting), an early return is the code of the first refusing setter, negative n/m/p are rejected (legacy_is_object_api, runUntilFail_eq_runOps, legacy_error_is_setter_error). Tie: the object built inside the legacy call is dumped at nlopt_optimize entry and compared field by field with the hand-built object. Monitor: pair runs legacy | object give bitwise equal traces, x, minimum and code for all algorithms; legacy population default equals the explicit setting.",
+        design="3/C17", note=TB + "nlopt_minimize and nlopt_minimize_constrained are thin wrappers of nlopt_minimize_econstrained (read off the source; the harness drives the latter).",
+        technique="Lean 4 proof (refinement of the legacy call to an API history) + object-dump correspondence + pair runs"),
+})
+
 NOT_YET = {}
 
 PROPS = ["C%02d" % i for i in range(1, 21)]
